@@ -64,6 +64,10 @@ EvGate ==
               \cup (IF x.point = "return" /\ x.res = "queued" /\ c \in Callers
                        /\ Id(c, k[c]) \in DOMAIN ticks /\ ticks[Id(c, k[c])] # x.tick
                     THEN {<<l, "tick">>} ELSE {})
+              \* WhenQueue(t) "closes once it has been processed": the queue tick is
+              \* past t  =>  the transition of t and its subscriptions are done
+              \cup (IF \E i \in 1..Len(x.wqopen) : x.wqopen[i] < x.qtick
+                    THEN {<<l, "whenqueue-late">>} ELSE {})
      IN \/ /\ M
            /\ drift' = drift
         \/ /\ ~ENABLED M
